@@ -618,9 +618,26 @@ func c12Getters(x *engine.X) {
 			loopAtConstruction = fmt.Sprintf("Loop()=%v, kernel IP_MULTICAST_LOOP=%d", p.Loop(), loop)
 		}
 		mif, _ := syscall.GetsockoptInet4Addr(fd, syscall.IPPROTO_IP, syscall.IP_MULTICAST_IF)
-		_, oip := p.Outbound()
+		oif, oip := p.Outbound()
 		if oip.IsValid() && oip.As4() != mif {
 			x.Fail("mcast.Outbound/getter-vs-kernel", "after %s Outbound() reports %v, kernel IP_MULTICAST_IF=%v", after, oip, net.IP(mif[:]))
+		}
+		// the two halves of the answer describe the same thing: no interface means the kernel's default (0.0.0.0); an
+		// interface means one that owns the address the kernel sends from
+		if oif == nil && mif != [4]byte{} {
+			x.Fail("mcast.Outbound/interface-vs-kernel", "after %s Outbound() reports no interface (address %v) but the kernel's IP_MULTICAST_IF is %v", after, oip, net.IP(mif[:]))
+		}
+		if oif != nil {
+			owns := false
+			addrs, _ := oif.Addrs()
+			for _, a := range addrs {
+				if ipn, isnet := a.(*net.IPNet); isnet && ipn.IP.To4() != nil && [4]byte(ipn.IP.To4()) == mif {
+					owns = true
+				}
+			}
+			if !owns {
+				x.Fail("mcast.Outbound/interface-vs-kernel", "after %s Outbound() reports interface %s, which does not own the kernel's IP_MULTICAST_IF %v", after, oif.Name, net.IP(mif[:]))
+			}
 		}
 		all, _ := syscall.GetsockoptInt(fd, syscall.IPPROTO_IP, 49)
 		if p.All() != (all != 0) {
